@@ -226,6 +226,7 @@ def synthetic_document(path):
 
 def doc_job(j):
     doc = j[0]
+    synth_dir = None
     if doc == "<synthetic>":
         synth_dir = tempfile.mkdtemp(prefix="verif_c09s_")
         doc = synthetic_document(os.path.join(synth_dir, "synthetic.json_solc"))
@@ -273,6 +274,8 @@ def doc_job(j):
         out["problems"] = probs[:20]
     finally:
         shutil.rmtree(workdir, ignore_errors=True)
+        if synth_dir:
+            shutil.rmtree(synth_dir, ignore_errors=True)
     return out
 
 
